@@ -263,7 +263,9 @@ func (c *c13Oracle) Check(w *World, o *Obs) []Violation {
 			enabling := (before.TOTPSecretKey != after.TOTPSecretKey && after.TOTPSecretKey != "") || (before.SMSPhone != after.SMSPhone && after.SMSPhone != "")
 			// re-enrolment of the same number / secret by the owner with a
 			// valid proof also hands out a fresh set of codes
-			if !enabling && owner && emailOK {
+			// (whether the e-mail authorisation was there is judged by the
+			// clauses above; here only: was it an enrolment with a valid proof)
+			if !enabling && owner {
 				code := o.presented("code")
 				switch st.Kind {
 				case "sms_confirm":
